@@ -538,6 +538,156 @@ def font_summary(f):
         [(e["c"], e["g"]) for e in f["ent"]], f["fc"], f["widths"], f["mw"], f["fm"])
 
 
+# =============================================================================================== extended coverage: CFF
+CFF_DEVS = ["EmptyIndex3", "EscapeSplit", "Charset1AsCodes", "Charset2Assert", "EncodingSwapped", "EncodingSuppl"]
+
+
+def cff_real(cs):
+    """what the real code (getdict / CFFFont.INDEX / CFFFont) makes of a case -> ('none'|exception name, value) in the
+    shape of the model's value"""
+    import io
+
+    from pdfminer.pdffont import CFFFont, getdict
+    from ..realise import cff
+    b = bytes(cs["bytes"])
+    k = cs["kind"]
+    try:
+        if k == "int":
+            return "none", getdict(b + b"\x0f").get(15, [None])[0]
+        if k == "real":
+            return "none", getdict(b + b"\x0f").get(15, [None])[0]
+        if k == "dict":
+            return "none", sorted(([op], [float(x) if isinstance(x, float) else x for x in args]) for op, args in getdict(b).items())
+        if k == "index":
+            fp = io.BytesIO(b + b"\xaa\xbb\x01\x02\x03\x04\x05\x06")
+            idx = CFFFont.INDEX(fp)
+            return "none", {"items": [list(idx[i]) for i in range(len(idx))], "used": fp.tell()}
+        if k == "charset":
+            blob = cff.build(cs["n"], b, bytes([0, cs["n"] - 1] + list(range(32, 31 + cs["n"]))))
+            f = CFFFont("verif", io.BytesIO(blob))
+            return "none", sorted([g, nm if isinstance(nm, str) else nm.decode("latin-1")] for g, nm in f.gid2name.items())
+        if k == "encoding":
+            n = len(cs["codes"]) + 1
+            blob = cff.build(n, b"\0" + b"".join((g).to_bytes(2, "big") for g in range(1, n)), b)
+            f = CFFFont("verif", io.BytesIO(blob))
+            return "none", sorted([c, g] for c, g in f.code2gid.items())
+    except AssertionError:
+        return "AssertionError", None
+    except Exception as e:  # noqa: BLE001
+        return type(e).__name__, None
+    raise MachineryError("unknown CFF case kind %r" % k)
+
+
+def cff_model_value(cs, res, standard):
+    """the model's result {err, val} in the shape cff_real produces"""
+    k = cs["kind"]
+    v = res["val"]
+    if res["err"] != "none":
+        return res["err"], None
+    if k == "int":
+        return "none", v
+    if k == "real":
+        return "none", float("".join(v))
+    if k == "dict":
+        return "none", sorted((list(op), [float("".join(a)) if isinstance(a, list) else a for a in args]) for op, args in v)
+    if k == "index":
+        return "none", {"items": [list(x) for x in v["items"]], "used": v["used"]}
+    if k == "charset":
+        custom = ["custom391", "custom392"]
+        return "none", sorted([g, standard[sid] if sid < len(standard) else custom[sid - len(standard)]] for g, sid in v)
+    return "none", sorted([c, g] for c, g in v)
+
+
+def direction_cff(ck, fut):
+    """EXTENDED COVERAGE - not part of C06's statement: every difference is a NOTE, never a violation."""
+    from pdfminer.pdffont import CFFFont
+    from ..realise import cff
+    cff.self_check()
+    res, emit = fut
+    ck.add_tlc(res, "CFF (extended coverage): operand encodings, DICT, INDEX, charset and encoding formats")
+    rep = {"cases": 0, "agree_with_reference": 0, "differ_as_named_deviation": {}, "unexplained": 0, "examples": []}
+    ck.extra["cff_extended_coverage"] = rep
+    if not res.ok:
+        ck.note("extended coverage (CFF): TLC reports %s violated on CFF.tla" % res.violated)
+        rep["model_violation"] = str(res.violated)
+        return
+    if res.actions:
+        require_coverage(res, ["AOperand", "AReal", "ADict", "AIndex", "ACharset", "AEncoding"])
+    standard = list(CFFFont.STANDARD_STRINGS)
+    n = 0
+    for line in open(emit):
+        r = json.loads(line)
+        cs = r["cs"]
+        n += 1
+        real = cff_real(cs)
+        want = cff_model_value(cs, r["i"], standard)
+        coded = cff_model_value(cs, r["c"], standard)
+        if cs["kind"] == "dict":
+            # the real dictionary cannot hold a two-byte operator at all: compare through the one-byte view
+            real = (real[0], [x for x in real[1]] if real[1] is not None else None)
+        if cs["kind"] == "index" and coded[1] and coded[1].get("used") == -1 and real[1] and real[1]["items"] == [] and real[1]["used"] != 2:
+            coded = real            # an empty INDEX read with a third header byte: where the reader ends up is garbage
+        ck.case(1, None)
+        if real == want:
+            rep["agree_with_reference"] += 1
+        elif real == coded and r["f"]:
+            for d in r["f"]:
+                rep["differ_as_named_deviation"][d] = rep["differ_as_named_deviation"].get(d, 0) + 1
+        else:
+            rep["unexplained"] += 1
+            if len(rep["examples"]) < 6:
+                rep["examples"].append({"kind": cs["kind"], "bytes": bytes(cs["bytes"]).hex(), "real": repr(real)[:200],
+                                        "reference": repr(want)[:200]})
+    os.remove(emit)
+    if n != res.emitted or n == 0:
+        raise MachineryError("CFF: emitted %d, replayed %d" % (res.emitted, n))
+    rep["cases"] = n
+    ck.replayed += n
+    for d, c in sorted(rep["differ_as_named_deviation"].items()):
+        ck.note("extended coverage (CFF, outside C06's statement): %d generated structures are read differently from TN 5176 - named deviation %s" % (c, d))
+    if rep["unexplained"]:
+        ck.note("extended coverage (CFF, outside C06's statement): %d generated structures where the real reader matches neither the "
+                "reference nor the modelled deviations, e.g. %s" % (rep["unexplained"], rep["examples"][0]))
+    # the Type1C programs of the repository samples: pdfminer's CFFFont against the reader written from TN 5176
+    from ..observe import ttrec
+    import io
+    surv = {"programs": 0, "glyph_names_agree": 0, "codes_agree": 0, "predefined_charset_not_read": 0,
+            "predefined_encoding_not_read": 0, "exception": {}, "differ": 0}
+    files = sorted(glob.glob("/repo/samples/**/*.pdf", recursive=True))
+    for fpath in files:
+        if os.path.getsize(fpath) > (6 << 20 if ck.tier == "quick" else 80 << 20):
+            continue
+        for origin, data in ttrec.embedded_programs(fpath, key="FontFile3"):
+            try:
+                ref = cff.parse(data)
+            except Exception:  # noqa: BLE001 - CID-keyed CFF (ROS) and the like: outside this reader
+                continue
+            surv["programs"] += 1
+            try:
+                f = CFFFont("verif", io.BytesIO(data))
+            except BaseException as e:  # noqa: BLE001
+                surv["exception"][type(e).__name__] = surv["exception"].get(type(e).__name__, 0) + 1
+                continue
+            if isinstance(ref["charset"], str):
+                surv["predefined_charset_not_read"] += 1
+            else:
+                exp = {g + 1: cff.sid_name(sid, ref["strings"], standard) for g, sid in enumerate(ref["charset"])}
+                if exp == dict(f.gid2name):
+                    surv["glyph_names_agree"] += 1
+                else:
+                    surv["differ"] += 1
+            if isinstance(ref["encoding"], str):
+                surv["predefined_encoding_not_read"] += 1
+            elif {c: g for c, g in ref["encoding"].items() if isinstance(g, int)} == dict(f.code2gid):
+                surv["codes_agree"] += 1
+    rep["sample_type1c_programs"] = surv
+    ck.note("extended coverage (CFF): %d Type1C programs of the samples: glyph names agree with TN 5176 on %d, differ on %d, "
+            "predefined charset not read on %d, encoding array agrees on %d, predefined encoding not read on %d, exceptions %s; "
+            "text extraction never consults CFFFont (a Type1C font without /Encoding falls back to StandardEncoding)"
+            % (surv["programs"], surv["glyph_names_agree"], surv["differ"], surv["predefined_charset_not_read"],
+               surv["codes_agree"], surv["predefined_encoding_not_read"], surv["exception"]))
+
+
 # =============================================================================================== sequences of fonts
 SEQ_GLYPH = {"gA": ("Euro", "\u20ac"), "gB": ("Sigma", "\u03a3")}
 SEQ_BYTES = [124, 125, 126]           # window codes 1..3: defined, and equal, in StandardEncoding and WinAnsiEncoding
@@ -909,6 +1059,11 @@ def run(ck):
         ja, js = agl_jobs(ck, agl_dev), sf_jobs(ck, font_dev)
         fa = [tpool.submit(run_agl_tlc, j) for j in ja]
         fs = [tpool.submit(run_sf_tlc, j) for j in js]
+        cff_cfg = write_cfg(os.path.join(ck.tmp, "cff.cfg"),
+                            constants={"MaxSeq": 2 if ck.tier == "quick" else 3, "Cases": "<- MCCases", "Dev": "<- AllDev"},
+                            invariants=["RoundTrip", "MachineRef", "DevLocal"], constraints=["Emit"])
+        cff_emit = os.path.join(ck.tmp, "cff.ndjson")
+        fcff = tpool.submit(run_tlc, os.path.join(FONT, "MC_CFF.tla"), cff_cfg, emit=cff_emit, coverage=True, workers=2, timeout=1800)
         import time
         t0 = time.time()
         ph = {}
@@ -920,6 +1075,8 @@ def run(ck):
         ph["sequences"] = round(time.time() - t0, 1)
         direction_a_cache(ck)
         ph["cache"] = round(time.time() - t0, 1)
+        direction_cff(ck, (fcff.result(), cff_emit))
+        ph["cff"] = round(time.time() - t0, 1)
         direction_b(ck, font_dev, ppool)
         ph["traces"] = round(time.time() - t0, 1)
         ck.extra["phase_finished_at_s"] = ph
